@@ -127,7 +127,10 @@ class Diag:
         if self.tags:
             return self.tags
         f = ur.fnmeta.get(self.fn)
-        return f["props"] if f else []
+        if f:
+            return f["props"]
+        # a failing lemma / spec item outside any extracted function and without a tag: charged to every property of the unit
+        return list(getattr(ur, "unit_props", []))
 
     def to_json(self, unit, ur):
         return {"obligation": self.obligation(unit), "kind": self.kind, "function": self.fn, "message": self.msg,
@@ -169,6 +172,11 @@ def run_unit(name, overlay=None, probe=False, rlimit=None, seed=None, tag="", ti
     ur.text_sha = hashlib.sha256(text.encode()).hexdigest()[:16]
     ur.src_shas = {rel: s.sha for rel, s in G.srcs.items()}
     ur.trusted = getattr(mod, "TRUSTED", [])
+    try:
+        from units import registry as _R
+        ur.unit_props = _R.UNITS.get(name, [])
+    except Exception:
+        ur.unit_props = []
     ur.assumed_fns = sorted(k for k, f in ur.fnmeta.items() if f["mode"] == "assume")
     ur.proved_fns = sorted(k for k, f in ur.fnmeta.items() if f["mode"] == "prove")
     ur.plain_fns = sorted(k for k, f in ur.fnmeta.items() if f["mode"] == "plain")
@@ -493,9 +501,13 @@ def dev_unit(name, probe=False, seed=None, rlimit=None):
     print(f"unit {name}: status={ur.status} {ur.reason}")
     print(f"  file {ur.path}  verified={ur.verified} errors={ur.errors} smt={ur.smt_ms}ms total={ur.total_ms}ms wall={ur.wall:.1f}s")
     print(f"  rewrites fired: {ur.fired}")
-    for d in ur.diags:
+    full = os.environ.get("VERIF_FULL")
+    for d in (ur.diags if full else ur.diags[:10]):
         print(f"- [{d.kind}] {d.obligation(name)}  props={d.props(ur)} src={d.src}")
-        print("    " + d.rendered.replace("\n", "\n    ")[:1500])
+        r = d.rendered if full else "\n".join(l[:230] for l in d.rendered.split("\n")[:14])
+        print("    " + r.replace("\n", "\n    "))
+    if len(ur.diags) > 10 and not full:
+        print(f"... {len(ur.diags) - 10} more diagnostics (VERIF_FULL=1 to see all)")
     if ur.status != "ok":
         print(getattr(ur, "stderr", "")[-3000:] if not ur.diags else "")
     return 0 if ur.status == "ok" and not ur.diags else 1
